@@ -34,6 +34,9 @@ RULE = (
     "unchanged; rewind/close -> 0; a reopened buffer restarts at sample 0. File and stdin kinds are never reopened "
     "(not claimed). Non-trivial = >= 2 reads and (a position change, a read crossing the end, or a reopen)."
 )
+RULE += (
+    ' Also: a raw source on a named pipe fed piecewise; a second stdin source made after the first was dropped and collected (the stream goes on); 1-2 MiB of audio with requests above 1 MiB, met or cut short by the end.'
+)
 MUST_HIT = ["millisecond_sweep", "negative_position_bps>1", "past_end_buffer", "past_end_raw", "past_end_wav", "past_end_stdin",
             "read_unopened", "index_error", "reopen_buffer", "read_all_remaining", "read_zero", "raw_named_pipe",
             "second_source_on_same_stdin", "chunk_request_above_1MiB_short", "chunk_request_above_1MiB_met"]
